@@ -79,7 +79,7 @@ deriving Repr
 
 /-- Which behaviour of `calculateBackoff` the correspondence run expects: `pinned` leaves the first
     failure's interval uncapped, `fixed` (fixes/C07-first-failure-cap.patch) caps it like the others. -/
-def activeBackoff : Variant := .pinned
+def activeBackoff : Variant := .fixed
 
 /-- `calculateBackoff(endpoint, success)` → (next interval, new multiplier). -/
 def calcBackoff (vb : Variant) (c : Cfg) (mult : Nat) (success : Bool) : Int × Nat :=
